@@ -535,6 +535,9 @@ struct Cls {
     f2: bool,
     f7: bool,
     f13: Option<&'static str>,
+    /// in a fold whose two offsets are printed as the same whole minute: the
+    /// RFC 9557 text then carries no information about which side is meant
+    same_minute: bool,
 }
 
 impl Cls {
@@ -545,6 +548,9 @@ impl Cls {
         }
         if self.submin {
             v.push("subminute-offset");
+        }
+        if self.same_minute {
+            v.push("both-fold-offsets-print-as-the-same-minute");
         }
         // the F2 class is named only outside sub-minute folds (there F3's
         // class already explains a failure; F2 would show at every other
@@ -602,7 +608,10 @@ fn classify(z: &rtz::Zone, t_ns: i128, printed_ns: i128) -> Cls {
         }
     }
     let f13 = f13_class_of(printed_ns + off as i128 * NS, printed_ns);
-    Cls { fold, submin, f2, f7, f13 }
+    let round_min = |o: i32| -> i32 { o.signum() * ((o.abs() + 30) / 60) };
+    let same_minute = pre.len() == 2
+        && round_min(z.infos[z.pieces[pre[0].1].info as usize].utoff) == round_min(z.infos[z.pieces[pre[1].1].info as usize].utoff);
+    Cls { fold, submin, f2, f7, f13, same_minute }
 }
 
 #[derive(Default)]
